@@ -131,7 +131,7 @@ async fn bounded_search_over_store_histories() {
     use std::num::NonZeroUsize;
     #[derive(Clone)] struct Rec { state: State, ttl: Duration }
     let thorough = std::env::var("VERIF_TIER").map(|t| t == "thorough").unwrap_or(false);
-    let n_histories: u64 = if thorough { 60_000 } else { 6_000 };
+    let n_histories: u64 = if thorough { 300_000 } else { 6_000 };
     let ttls = [Duration::ZERO, Duration::from_secs(5), LONG];
     let mut seed: u64 = 0x9E3779B97F4A7C15;
     let mut rnd = |n: u64| -> u64 { seed ^= seed << 13; seed ^= seed >> 7; seed ^= seed << 17; seed % n };
